@@ -85,6 +85,7 @@ def outStr : Nat Ã— Out â†’ String
   | (t, .ended c) => s!"> {t} ended {clsStr c}"
   | (t, .state st) => s!"> {t} state {stateStr st}"
   | (t, .reg l) => s!"> {t} reg {regStr l}"
+  | (t, .buf l) => s!"> {t} buf {if l.isEmpty then "-" else String.intercalate "," (l.map hexOf)}"
 
 def parsePredef (s : String) : Option Predef :=
   if s == "-" then some [] else
@@ -160,7 +161,7 @@ def gwCompare (hdr : String) (lines : List String) : List String Ã— Option (Gw Ã
       -- input that arrives after the session was cancelled (it takes up to one poll interval to
       -- end) is half-processed by the real handler; the model ignores it, so the instrumentation
       -- (state / registry samples) is not compared from the cancellation on
-      let instrLate := fun (p : Nat Ã— String) => (p.2.startsWith "state" || p.2.startsWith "reg") &&
+      let instrLate := fun (p : Nat Ã— String) => (p.2.startsWith "state" || p.2.startsWith "reg" || p.2.startsWith "buf") &&
         (match g.cancelledAt with | some tc => tc â‰¤ p.1 | none => false)
       let mOrd := modelOuts.filter (fun p => !isEndLine p.2 && !instrLate p)
       let iOrd := implOuts.filter (fun p => !isEndLine p.2 && !p.2.startsWith "leak" && !instrLate p)
@@ -235,6 +236,7 @@ def implTrace (lines : List String) : List Spec.TE :=
         | ["ended", c] => some (Spec.TE.out t (.ended (parseCls c)))
         | ["state", st] => (parseState st).map fun x => Spec.TE.out t (.state x)
         | ["reg", r] => (parseReg r).map fun x => Spec.TE.out t (.reg x)
+        | ["buf", b] => (if b == "-" then some [] else (b.splitOn ",").mapM parseHex).map fun x => Spec.TE.out t (.buf x)
         | _ => none
       | none => none
 
@@ -252,7 +254,7 @@ def projOf (prop : String) (txt : String) : Bool :=
   let mqKind := if kind == "mq" then w.getD 1 "" else ""
   match prop with
   | "C01" => mqKind == "publish" || kind == "reg"
-  | "C02" | "C05" | "C32" => longSn || snType == some Gen.tPUBLISH || snType == some Gen.tREGISTER
+  | "C02" | "C05" | "C32" => kind == "buf" || longSn || snType == some Gen.tPUBLISH || snType == some Gen.tREGISTER
   | "C03" => ["subscribe", "unsubscribe", "pubrel", "pingreq", "disconnect"].contains mqKind ||
       [some Gen.tPUBREC, some Gen.tPUBCOMP, some Gen.tUNSUBACK, some Gen.tSUBACK, some Gen.tPINGRESP].contains snType
   | "C04" => [some Gen.tREGACK, some Gen.tSUBACK, some Gen.tREGISTER].contains snType || kind == "reg"
@@ -261,7 +263,7 @@ def projOf (prop : String) (txt : String) : Bool :=
   | "C07" => snType == some Gen.tCONNACK || kind == "mq" || kind == "ended" || kind == "state"
   | "C08" | "C09" => mqKind == "connect" || [some Gen.tCONNACK, some Gen.tWILLTOPICREQ, some Gen.tWILLMSGREQ].contains snType
   | "C10" | "C34" => kind == "ended" || kind == "mqclose"
-  | "C11" => kind == "sn" || kind == "state"
+  | "C11" => kind == "sn" || kind == "state" || kind == "buf"
   | "C12" => kind == "mq"
   | "C13" => kind == "ended" || kind == "mqclose" || snType == some Gen.tDISCONNECT || kind == "state"
   | "C14" => mqKind == "disconnect" || kind == "mqclose" || kind == "ended"
